@@ -58,54 +58,59 @@ pub fn check<I: Inputs>(vt: &'static Vt<I>, ctx: &Ctx) -> DeclReport {
     ]
     .boxed();
 
-    let eval = |t: &Text| -> Outcome {
-        let s = t.0.as_str();
-        let parsed = I::parse_(s).expect("inner type of a FromStr newtype parses");
-        let (expected, class, nontrivial): (FsOut<I>, &'static str, bool) = match parsed {
-            Err(e) => (FsOut::Parse(e), "inner-parse-fails", false),
-            Ok(v) => match no_panic(|| (vt.ctor)(v.clone())) {
-                Ok(Ok(x)) => {
-                    let changed = !x.same(&v);
-                    (FsOut::Ok(x), if changed { "parses-accepted-sanitized" } else { "parses-accepted" }, true)
-                }
-                Ok(Err(e)) => (FsOut::Validate(e), "parses-rejected", true),
-                Err(_) => return Outcome::ok(true, "ctor-panicked"),
-            },
-        };
-        // independent cross-check of the verdict with the model (the constructor is C01's subject)
-        let _ = model::sanitize::<I>;
-        let got = no_panic(|| fs(s));
-        let sig = |w: &str| format!("C06|{}|{w}|sans={}|vals={}", I::NAME, san_names(m), val_names(m));
-        let show = |o: &FsOut<I>| match o {
-            FsOut::Ok(v) => format!("Ok({})", v.to_json()),
-            FsOut::Parse(e) => format!("Parse({e})"),
-            FsOut::Validate(e) => format!("Validate({})", e.show()),
-        };
-        match got {
-            Err(p) => Outcome::fail(nontrivial, class, sig("panic"), show(&expected), format!("panic: {}", p.lines().next().unwrap_or(""))),
-            Ok(g) => {
-                let same = match (&g, &expected) {
-                    (FsOut::Ok(a), FsOut::Ok(b)) => a.same(b),
-                    (FsOut::Parse(a), FsOut::Parse(b)) => a == b,
-                    (FsOut::Validate(a), FsOut::Validate(b)) => a == b,
-                    _ => false,
-                };
-                if same {
-                    Outcome::ok(nontrivial, class)
-                } else {
-                    let w = match (&expected, &g) {
-                        (FsOut::Parse(_), FsOut::Ok(_)) => "accepts-unparseable",
-                        (FsOut::Validate(_), FsOut::Ok(_)) => "accepts-rejected-value",
-                        (FsOut::Ok(_), FsOut::Ok(_)) => "wrong-value",
-                        (FsOut::Ok(_), _) => "rejects-valid",
-                        (FsOut::Parse(_), FsOut::Validate(_)) | (FsOut::Validate(_), FsOut::Parse(_)) => "wrong-error-kind",
-                        _ => "wrong-error-payload",
-                    };
-                    Outcome::fail(nontrivial, class, sig(w), show(&expected), show(&g))
-                }
-            }
-        }
-    };
+    let eval = |t: &Text| -> Outcome { eval_text(vt, t) };
     drive(ctx, &info, &mut rep, sys, Some(strat), ctx.n_random(1500, 75_000), &eval);
     rep
+}
+
+/// one case of C06 (also the body of the fuzz target)
+pub fn eval_text<I: Inputs>(vt: &'static Vt<I>, t: &Text) -> Outcome {
+    let Some(fs) = vt.from_str else { return Outcome::ok(false, "irrelevant") };
+    let m = vt.model;
+    let s = t.0.as_str();
+    let parsed = I::parse_(s).expect("inner type of a FromStr newtype parses");
+    let (expected, class, nontrivial): (FsOut<I>, &'static str, bool) = match parsed {
+        Err(e) => (FsOut::Parse(e), "inner-parse-fails", false),
+        Ok(v) => match no_panic(|| (vt.ctor)(v.clone())) {
+            Ok(Ok(x)) => {
+                let changed = !x.same(&v);
+                (FsOut::Ok(x), if changed { "parses-accepted-sanitized" } else { "parses-accepted" }, true)
+            }
+            Ok(Err(e)) => (FsOut::Validate(e), "parses-rejected", true),
+            Err(_) => return Outcome::ok(true, "ctor-panicked"),
+        },
+    };
+    // independent cross-check of the verdict with the model (the constructor is C01's subject)
+    let _ = model::sanitize::<I>;
+    let got = no_panic(|| fs(s));
+    let sig = |w: &str| format!("C06|{}|{w}|sans={}|vals={}", I::NAME, san_names(m), val_names(m));
+    let show = |o: &FsOut<I>| match o {
+        FsOut::Ok(v) => format!("Ok({})", v.to_json()),
+        FsOut::Parse(e) => format!("Parse({e})"),
+        FsOut::Validate(e) => format!("Validate({})", e.show()),
+    };
+    match got {
+        Err(p) => Outcome::fail(nontrivial, class, sig("panic"), show(&expected), format!("panic: {}", p.lines().next().unwrap_or(""))),
+        Ok(g) => {
+            let same = match (&g, &expected) {
+                (FsOut::Ok(a), FsOut::Ok(b)) => a.same(b),
+                (FsOut::Parse(a), FsOut::Parse(b)) => a == b,
+                (FsOut::Validate(a), FsOut::Validate(b)) => a == b,
+                _ => false,
+            };
+            if same {
+                Outcome::ok(nontrivial, class)
+            } else {
+                let w = match (&expected, &g) {
+                    (FsOut::Parse(_), FsOut::Ok(_)) => "accepts-unparseable",
+                    (FsOut::Validate(_), FsOut::Ok(_)) => "accepts-rejected-value",
+                    (FsOut::Ok(_), FsOut::Ok(_)) => "wrong-value",
+                    (FsOut::Ok(_), _) => "rejects-valid",
+                    (FsOut::Parse(_), FsOut::Validate(_)) | (FsOut::Validate(_), FsOut::Parse(_)) => "wrong-error-kind",
+                    _ => "wrong-error-payload",
+                };
+                Outcome::fail(nontrivial, class, sig(w), show(&expected), show(&g))
+            }
+        }
+    }
 }
